@@ -4,6 +4,8 @@ import PcfgVerif.Properties.ReproEndToEnd
 import PcfgVerif.Lemmas.TrainedListedE
 import PcfgVerif.Lemmas.TrainedAgreeF
 import PcfgVerif.Lemmas.ScoreB7
+import PcfgVerif.Lemmas.RunsLoader
+import PcfgVerif.Lemmas.BaseLoader
 import PcfgVerif.Properties.DetectCoreC
 /-!
 # C03 — every supported training password is reproduced by the trained grammar
@@ -155,5 +157,39 @@ example : ∃ (reps : List String) (bp : Rat) (idx : List Nat),
     (by intro c a b; simp [Detect.asciiU, a, b]) (by intro c a b; simp [Detect.asciiU]; omega)
     (by decide) (Detect.asciiU_lenPres _) ScoreB.Ex.scalar_ex ScoreB.Ex.caseInv_ex
     (by decide +kernel) (by decide +kernel) (by decide +kernel)
+
+/-- **the columns of `Trainer.viewOf` are what the loader model returns on the trainer's files**: write the list of a counter
+(`calculate_probabilities`, exact rationals) with any printing of probabilities that the parser inverts, load the text with the model of
+`_load_from_file`; the groups returned are exactly `Trainer.colOf` — the maximal runs of equal probability (uniqueness of that
+decomposition, `Trainer.runs_unique`, on top of `C07_guesser_roundtrip`).  Hypotheses: clean values (what `check_valid` admits,
+`C07_accepted_is_clean`), clean probability text, no probability equal to the loader's start value −1. -/
+theorem C03_view_columns_are_loaded (parseP : CPs → Option Rat) (showP : Rat → CPs) (neg1 : Rat)
+    (hround : ∀ p, parseP (showP p) = some p) (t : Detect.MWTable)
+    (hclean : ∀ it ∈ t, CleanValue it.1) (hshow : ∀ p, CleanProb (showP p)) (hsent : ∀ it ∈ Trainer.listOf t, it.2 ≠ neg1) :
+    ∃ gs, loadFromFile parseP (fun a b => a == b) neg1 (writeFile ((Trainer.listOf t).map fun it => (it.1, showP it.2))) = some gs ∧
+      gs.map (fun g => (g.values, g.prob)) = Trainer.colOf t := by
+  refine Trainer.loader_returns_runs parseP showP neg1 hround (Trainer.listOf t) ?_ hshow hsent
+  intro it hit
+  obtain ⟨c, hc, _⟩ := (calcProbs_mem ratOps (Trainer.toQ t) it.1 it.2).mp hit
+  obtain ⟨q, hq, he⟩ := List.mem_map.mp hc
+  have : q.1 = it.1 := congrArg Prod.fst he
+  rw [← this]; exact hclean q hq
+
+/-- **the base structures of `Trainer.viewOf` are what the base-structure loader model returns on the trainer's `grammar.txt`**
+(`_load_base_structures`, default flags, text-mode reading with universal newlines): every line tokenises — each key of the trainer's
+base-structure counter is a concatenation of section labels (`Trainer.train_baseok`, an invariant over the whole training run),
+`M` is one letter — and the loaded list, replacement by replacement, is `viewBases`.  Hypotheses: printing and parsing a probability
+round-trip and the written fields are clean; every training password is non-empty with length-preserving lower-casing. -/
+theorem C03_view_bases_are_loaded (parseP : CPs → Option Rat) (showP : Rat → CPs) (isAlpha : Nat → Bool)
+    (hcap : ∀ c, 65 ≤ c → c ≤ 90 → isAlpha c = true) (hdig : ∀ c, 48 ≤ c → c ≤ 57 → isAlpha c = false)
+    (hround : ∀ p, parseP (showP p) = some p) (U : Detect.UEnv) (cfg : Detect.MWCfg) (pws : List CPs)
+    (hpw : ∀ pw ∈ pws, pw ≠ [] ∧ Detect.LenPres U pw) (cov : Rat)
+    (hclean : ∀ it ∈ Trainer.baseList cov pws.length (Trainer.train U cfg pws).base, CleanItem (it.1, showP it.2)) :
+    ∃ bs, loadBase parseP Trainer.ratArith isAlpha false
+        (writeFile ((Trainer.baseList cov pws.length (Trainer.train U cfg pws).base).map fun it => (it.1, showP it.2))) = some bs ∧
+      bs.map (fun b => (b.replacements.map Trainer.strOf, b.prob)) =
+        (Trainer.viewOf isAlpha cov pws.length (Trainer.train U cfg pws)).bases :=
+  Trainer.loadBase_returns_viewBases parseP showP isAlpha hround cov pws.length _ hclean
+    (Trainer.baseList_keys_split isAlpha hcap hdig cov pws.length _ (Trainer.train_baseok U cfg pws hpw))
 
 end Pcfg.C03
